@@ -143,6 +143,30 @@ class SList(Sym):
         return "SList(%s, len=%s)" % (self.name, self.length)
 
 
+class OptField(object):
+    """Value of a dict key whose *presence* is symbolic: (present: z3 Bool, value)."""
+
+    __slots__ = ("present", "value")
+
+    def __init__(self, present, value):
+        self.present = present
+        self.value = value
+
+    def __repr__(self):
+        return "OptField(%s, %r)" % (self.present, self.value)
+
+    def __eq__(self, other):
+        if self is other:
+            return True
+        raise NativeOnSym("== on optional field")
+
+    def __hash__(self):
+        return id(self)
+
+    def __bool__(self):
+        raise NativeOnSym("bool() of optional field")
+
+
 def is_sym(v):
     return isinstance(v, Sym)
 
@@ -165,7 +189,7 @@ def mk_val(name):
 
 def deep_has_sym(v, _depth=0, _seen=None):
     """True if a (nested) container holds a symbolic value."""
-    if isinstance(v, Sym):
+    if isinstance(v, (Sym, OptField)):
         return True
     if _depth > 6:
         return False
